@@ -60,7 +60,7 @@ def gen_stats_case(rng, M, P, N, scalar="f64", weights=None, noise=0.05, quant=N
          "meta": {"family": "mp%d%d" % (M, P), "N": N, "M": M, "P": P, "S": 1, "weights": weights or "none", "range": [lo, hi]}}
     synth_observations(rng, c, truth, noise=noise, qbits=qbits)
     if weights and weights != "none":
-        w = [1.0] * N if weights == "unit" else [dyadic(rng, 0.5, 3, 2) for _ in range(N)]
+        w = [1.0] * N if weights == "unit" else [rng.choice([0.5, 3.0, 0.25, 2.5])] * N if weights == "const" else [dyadic(rng, 0.5, 3, 2) for _ in range(N)]
         if weights == "neg":
             # the sign of a weight is immaterial for the fit (only w^2 enters); it must be for the statistics too
             for i in rng.sample(range(N), max(1, N // 3)):
